@@ -77,6 +77,37 @@ impl VpvTake for char { fn vpv_take(s: &mut ReplaySrc) -> Self { let b = s.next(
 #[cfg(vpv_replay)]
 impl<const N: usize> VpvTake for [u8; N] { fn vpv_take(s: &mut ReplaySrc) -> Self { let b = s.next(N); let mut a = [0u8; N]; a.copy_from_slice(&b); a } }
 
+
+/// A *native enumeration cell* (bounded stand-in, never counted as proved): `body() -> bool` enumerates a stated finite input
+/// space and calls the real code natively (cfg vpv_replay build of the scratch copy).  No Kani harness is generated for it.
+/// `vpv_enum_try(label, f)` runs one input, turning a panic of the real code into `false` and printing the failing input.
+#[allow(unused_macros)]
+macro_rules! vpv_native {
+    ($m:ident, $obl:literal, $body:block) => {
+        #[allow(non_snake_case, unused_imports, unused_variables, unused_mut, dead_code)]
+        pub mod $m {
+            use super::*;
+            pub const OBL: &str = $obl;
+            #[cfg(vpv_replay)]
+            pub fn body() -> bool $body
+            #[cfg(vpv_replay)]
+            pub fn replay(_src: &mut ReplaySrc) -> bool { body() }
+        }
+    };
+}
+#[cfg(vpv_replay)]
+pub fn vpv_enum_try<L: Fn() -> String, F: FnOnce() -> bool>(label: L, f: F) -> bool {
+    match std::panic::catch_unwind(std::panic::AssertUnwindSafe(f)) {
+        Ok(true) => true,
+        Ok(false) => { println!("  input {} -> contract false", label()); false }
+        Err(e) => {
+            let msg = e.downcast_ref::<String>().cloned().or_else(|| e.downcast_ref::<&str>().map(|s| s.to_string())).unwrap_or_default();
+            println!("  input {} -> real code panicked: {}", label(), msg);
+            false
+        }
+    }
+}
+
 /// Replay entry point: one `#[test]` per appended module, generated by `vpv_replay_table!`.
 #[allow(unused_macros)]
 macro_rules! vpv_replay_table {
